@@ -1191,6 +1191,14 @@ func (cfg *Config) glob(base, pat string) ([]string, error) {
 		if err != nil {
 			return nil, err
 		}
+		if !cfg.DotGlob && !matchesDotExplicitly(part) {
+			// A leading dot in a name must be matched explicitly;
+			// wildcards and bracket expressions never match it.
+			anyName := matcher
+			matcher = func(name string) bool {
+				return !strings.HasPrefix(name, ".") && anyName(name)
+			}
+		}
 		var newMatches []string
 		for _, dir := range matches {
 			newMatches, err = cfg.globDir(base, dir, matcher, wantDir, newMatches)
@@ -1208,6 +1216,40 @@ func (cfg *Config) glob(base, pat string) ([]string, error) {
 		matches = matches[1:]
 	}
 	return matches, nil
+}
+
+// matchesDotExplicitly reports whether a pattern for a path element starts
+// with a literal dot, possibly inside a leading extended globbing group.
+func matchesDotExplicitly(pat string) bool {
+	if strings.HasPrefix(pat, ".") || strings.HasPrefix(pat, `\.`) {
+		return true
+	}
+	if len(pat) < 2 || pat[1] != '(' || !strings.ContainsRune("?*+@!", rune(pat[0])) {
+		return false
+	}
+	// Any alternative of a leading group may provide the dot,
+	// and so may what follows a group that can match the empty string.
+	depth := 0
+	for i := 1; i < len(pat)-1; i++ {
+		switch pat[i] {
+		case '\\':
+			i++
+		case '(':
+			depth++
+			if depth == 1 && (pat[i+1] == '.' || strings.HasPrefix(pat[i+1:], `\.`)) {
+				return true
+			}
+		case '|':
+			if depth == 1 && (pat[i+1] == '.' || strings.HasPrefix(pat[i+1:], `\.`)) {
+				return true
+			}
+		case ')':
+			if depth--; depth == 0 {
+				return (pat[0] == '?' || pat[0] == '*') && matchesDotExplicitly(pat[i+1:])
+			}
+		}
+	}
+	return false
 }
 
 func (cfg *Config) globDir(base, dir string, matcher func(string) bool, wantDir bool, matches []string) ([]string, error) {
